@@ -378,6 +378,13 @@ func Eq(a, b *Term) *Term {
 			return Not(a)
 		}
 	}
+	if a.Op == "str.++" && b.Op == "str.++" && len(a.Args) == 2 && len(b.Args) == 2 && a.Args[1] == b.Args[1] && a.Args[0].Op == "str" && b.Args[0].Op == "str" {
+		return TFalse // different literal prefixes before the same suffix
+	}
+	if (a.Op == "str.++" && b.Op == "app" && b.Str == "dec" && len(a.Args) == 2 && a.Args[1] == b && a.Args[0].Op == "str" && a.Args[0].Str != "") ||
+		(b.Op == "str.++" && a.Op == "app" && a.Str == "dec" && len(b.Args) == 2 && b.Args[1] == a && b.Args[0].Op == "str" && b.Args[0].Str != "") {
+		return TFalse // a non-empty prefix makes the string longer
+	}
 	if a.Op == "mk" && b.Op == "mk" {
 		cs := make([]*Term, len(a.Args))
 		for i := range a.Args {
@@ -1013,6 +1020,113 @@ func imageFacts(ts []*Term) []*Term {
 	return facts
 }
 
+// ---- specification prelude, included selectively ----
+
+type preludeForm struct {
+	name string
+	text string
+	refs []string
+}
+
+var (
+	preludeForms  []*preludeForm
+	preludeByName = map[string]*preludeForm{}
+)
+
+func parsePreludeForms(text string) {
+	preludeForms = nil
+	preludeByName = map[string]*preludeForm{}
+	// split into top-level s-expressions, keeping the original text
+	depth := 0
+	start := -1
+	i := 0
+	for i < len(text) {
+		c := text[i]
+		switch {
+		case c == ';':
+			for i < len(text) && text[i] != '\n' {
+				i++
+			}
+			continue
+		case c == '"':
+			i++
+			for i < len(text) && text[i] != '"' {
+				i++
+			}
+		case c == '(':
+			if depth == 0 {
+				start = i
+			}
+			depth++
+		case c == ')':
+			depth--
+			if depth == 0 && start >= 0 {
+				ft := text[start : i+1]
+				toks := tokenizeSExp(ft)
+				f := &preludeForm{text: ft}
+				if len(toks) > 2 {
+					f.name = toks[2]
+				}
+				seen := map[string]bool{}
+				for _, t := range toks[3:] {
+					if t != "(" && t != ")" && !seen[t] {
+						seen[t] = true
+						f.refs = append(f.refs, t)
+					}
+				}
+				preludeForms = append(preludeForms, f)
+				preludeByName[f.name] = f
+				start = -1
+			}
+		}
+		i++
+	}
+}
+
+// neededForms: definitions (transitively) used by the terms, in file order.
+func neededForms(order []*Term) []*preludeForm {
+	need := map[string]bool{}
+	var visit func(n string)
+	visit = func(n string) {
+		f, ok := preludeByName[n]
+		if !ok || need[n] {
+			return
+		}
+		need[n] = true
+		for _, r := range f.refs {
+			visit(r)
+		}
+	}
+	for _, t := range order {
+		if t.Op == "app" {
+			visit(t.Str)
+		}
+	}
+	var out []*preludeForm
+	for _, f := range preludeForms {
+		if need[f.name] {
+			out = append(out, f)
+		}
+	}
+	return out
+}
+
+func usedSortsWith(order []*Term, forms []*preludeForm) []*Sort {
+	extra := []*Term{}
+	for _, f := range forms {
+		for _, r := range f.refs {
+			if so, ok := dtSorts[r]; ok {
+				extra = append(extra, zeroTerm(so))
+			}
+		}
+	}
+	if len(extra) == 0 {
+		return usedSorts(order)
+	}
+	o2, _ := collect(extra)
+	return usedSorts(append(append([]*Term{}, order...), o2...))
+}
+
 func (sc *Script) Render(logic string, getModel bool) string {
 	sc.Asserts = append(imageFacts(sc.Asserts), sc.Asserts...)
 	order, uses := collect(sc.Asserts)
@@ -1023,7 +1137,8 @@ func (sc *Script) Render(logic string, getModel bool) string {
 	if logic != "" {
 		b.WriteString("(set-logic " + logic + ")\n")
 	}
-	for _, s := range usedSorts(order) {
+	forms := neededForms(order)
+	for _, s := range usedSortsWith(order, forms) {
 		fmt.Fprintf(&b, "(declare-datatypes ((%s 0)) (((%s", s.Name, s.Ctor)
 		for _, f := range s.Fields {
 			fmt.Fprintf(&b, " (%s %s)", f.Name, f.Sort.Name)
@@ -1031,7 +1146,10 @@ func (sc *Script) Render(logic string, getModel bool) string {
 		b.WriteString("))))\n")
 	}
 	b.WriteString(preludeBase)
-	b.WriteString(sc.Prelude)
+	for _, f := range forms {
+		b.WriteString(f.text)
+		b.WriteString("\n")
+	}
 	// declarations
 	var vars []*Term
 	apps := map[string]*Term{}
